@@ -556,7 +556,9 @@ class Queue(Greenlet):
         if not self.relay:
             return
         self._pool_spawn('store', self._load_all)
-        self._pool_spawn('store', self._wait_store)
+        # Not in the store pool: this loop never ends, and would hold one
+        # of its slots (the only one, with store_pool=1) for ever.
+        gevent.spawn(self._wait_store)
         while True:
             self.queued_lock.acquire()
             try:
